@@ -262,7 +262,9 @@ CLAIMED["C20"] = dict(
         "any table and fields, module-level or function-local declaration, and every schedule, with no bound on preemptions: no thread "
         "fails (no KeyError on the table, no unevaluated reference at conversion time) and every finished thread used fully resolved "
         "field types (C20_no_thread_fails); at most one thread resolves at a time (C20_one_resolver_at_a_time); no reachable state is a "
-        "deadlock (C20_no_deadlock). The same code without the lock is refuted by one-preemption schedules "
+        "deadlock (C20_no_deadlock). Lookups in the shared converter registry (cache test, hit, scan, fill; Model/RegCache.v): for any "
+        "threads, requested types and schedule every lookup returns what the scan of the registrations gives and the read of a hit never "
+        "fails (C20_registry_lookups_agree). The same code without the lock is refuted by one-preemption schedules "
         "(C20_unlocked_refuted, C20_unlocked_local_refuted): the defect repaired in /repo.",
    note="Trusted: Coq kernel; Model/Concur.v as a description of resolve_forward_refs / _resolve_forward_refs at line granularity, and "
         "CPython executing one such line without interference on the state it touches (GIL). Tie: the protocol-trace suite runs the real "
